@@ -15,7 +15,9 @@ idx={e['name'].replace('.diff',''):e for e in json.load(open(d+'/index.json'))}
 bad=0
 for f in sorted(os.listdir(tmp)):
     name=f[:-4]; out=open(os.path.join(tmp,f)).read()
-    rep=bool(re.search(r'^VIOLATION',out,re.M)); und=bool(re.search(r'UNDECIDED|CHECKER-ERROR|PATCH-DOES-NOT-APPLY',out))
+    rep=bool(re.search(r'^VIOLATION',out,re.M)); und=bool(re.search(r'UNDECIDED|CHECKER-ERROR',out))
+    if 'PATCH-DOES-NOT-APPLY' in out or 'patch does not apply' in out:
+        print('%-45s %-20s (the tree moved away from the diff: /repo was repaired there)'%(name,'stale')); continue
     e=idx.get(name,{})
     breaks=e.get('breaks_property'); expect=bool(e.get('reported_by'))
     if name.startswith('benign'): breaks=False; expect=False
